@@ -137,9 +137,10 @@ PROPS = {
                 rule="constructor: every element sequence up to length 5 over atoms, numbers, variables, $_, complex terms, empty / nested / tailed lists x vbar, stepped through the make_linked_list machine of Lists.tla; "
                      "engine-built lists: every renamed term vector, append result and include/exclude result of the other slices, projected cell by cell with the well-formedness check",
                 assumptions=["a single-element sequence whose element is a list is outside the documented constructor contract", "parsed lists are checked by the syntax slices (C19)"]),
-    "C10": dict(jobs=["lists-rename", "unify-plain", "solver-lists", "solver-alias", "solver-andor"], level="model_checking",
+    "C10": dict(jobs=["lists-rename", "unify-plain", "solver-lists", "solver-alias", "solver-andor", "trace-solver"], level="model_checking",
                 rule="every vector of 1-3 terms (clause-shaped: shared and distinct variable names, $_, empty / nested lists, tails, function terms) renamed from two counter values; plus every term pair of the unifier slice renamed and unified",
-                assumptions=["freshness in the middle of a search is checked by the solver trace slices"]),
+                assumptions=["freshness in the middle of a search: after every replayed query each clause of the program is fetched with get_rule() one after the other; "
+                             "and in every recorded run each head unification must have taken at least one fresh id per variable name of its clause (the engine's own counter, logged by the resolve hook)"]),
     "C16": dict(jobs=["bip-append"], level="model_checking",
                 rule="append with 1-4 inputs from a universe of atoms, numbers, complex terms, bound variables, lists with nested / empty-list elements and bound tails, x 3 priors x several Out shapes",
                 assumptions=["unbound-variable inputs and lists with an unbound tail are outside the claim and excluded"]),
